@@ -9,13 +9,27 @@
   OBLIGATIONS (audited by `check` with `#print axioms`):
     partition_fifo, partition_fifo_at_await, exactly_once, retry_is_remainder, truncation_counted,
     teardown_only_loss, no_delivery_after_teardown, take_hands_over, watcher_runs_outside_lock,
-    watcher_reentry_keeps_batch
+    watcher_reentry_keeps_batch, closed_after_receiver_drop
 -/
 import EmitModel.Lemmas.Batcher
 import EmitModel.Lemmas.BatcherExt
 
 namespace EmitModel.C06
 open EmitModel.Batcher EmitModel.Sched
+
+/-- **A dropped receiver closes the channel.** Whatever the shared state was when the receiver was torn down (a sender
+    in the middle of its own critical section has simply finished it — the drop takes the lock), afterwards the
+    channel is closed: `try_send` answers `closed` and accepts nothing, so no item can be accepted that nobody will
+    ever process. -/
+theorem closed_after_receiver_drop (cfg : Cfg) (s s' : St) (x : Nat) (h : dropReceiver s = some s') :
+    s'.isOpen = false ∧ (trySend cfg s' x).2 = .closed ∧ (trySend cfg s' x).1 = s' := by
+  have ho : s'.isOpen = false := by
+    unfold dropReceiver at h
+    split at h <;> simp at h <;> subst h <;> rfl
+  refine ⟨ho, ?_, ?_⟩ <;> simp [trySend, ho]
+
+/-- non-vacuity: the initial state with one pending item can lose its receiver -/
+example : ∃ s', dropReceiver (send ⟨8, 10, 1, 10, 1, 10⟩ init 1) = some s' := ⟨_, rfl⟩
 
 /-- **Partition / FIFO / exactly once.** In every reachable state the accepted items that were not cleared by a
     truncation are, in acceptance order, exactly: the concatenation of the first-attempt batches handed to the
